@@ -102,6 +102,16 @@ class C20(Prop):
                 out.append(Case("run", f, "run-vs-execute", group=g, note=src))
         return out
 
+    def judge(self, case, go, model):
+        out = Prop.judge(self, case, go, model)
+        # NoOptimize disables optimisation - whatever was prepared before: the program the machine will run is the compiled one
+        ops = case.fields.get("ops", "").split(";")
+        for k, op in enumerate(ops):
+            if op == "prepare:noopt" and go.get("o%d.prep" % k) == "ok":
+                if go.get("o%d.prog" % k) != go.get("o%d.uprog" % k):
+                    out.append("o%d: Prepare with NoOptimize gave the machine an optimized program" % k)
+        return out
+
     def judge_groups(self, groups, go):
         from props.c05 import truthy
         out = []
